@@ -119,8 +119,10 @@ def library_built():
     """True when the hand-written library has been compiled by setup_cmd."""
     for root, _, files in os.walk(THEORIES):
         for f in files:
-            if f.endswith(".v") and not os.path.exists(os.path.join(root, f[:-2] + ".vo")):
-                return False
+            if f.endswith(".v"):
+                vo = os.path.join(root, f[:-2] + ".vo")
+                if not os.path.exists(vo) or os.path.getmtime(vo) < os.path.getmtime(os.path.join(root, f)):
+                    return False
     return True
 
 
